@@ -71,7 +71,17 @@ def run(ctx):
     path = os.path.join(out, "c15.ndjson")
     n, rej, st = linetrace.validate(ctx, "Trace_Stream", TR, path, "tr_stream",
                                     keyfn, "stream call trace", segment_op="new")
-    lines = [json.loads(x) for x in open(path).read().splitlines()]
+    # write deadlines expiring inside a record (TCP variant)
+    rc, o = run_driver(ctx, binary, "TestC15WriteTimeout", out, timeout=900)
+    if rc != 0:
+        raise Infra("write-timeout driver failed:\n" + o[-2000:])
+    path2 = os.path.join(out, "c15wt.ndjson")
+    n2, rej2, st2 = linetrace.validate(ctx, "Trace_Stream", TR, path2, "tr_stream_wt",
+                                       keyfn, "stream call trace (write timeouts)",
+                                       segment_op="new")
+    n, rej = n + n2, rej + rej2
+    lines = [json.loads(x) for x in open(path).read().splitlines()] + \
+        [json.loads(x) for x in open(path2).read().splitlines()]
     scen = [x for x in lines if x["op"] == "new"]
     write_evidence(ctx, "model_checking", {
         "states": mc["distinct"], "transitions": mc["generated"],
